@@ -295,10 +295,22 @@ def obligation(o, tier, seed):
                                 solver_s=r["solver_s"], sample=sample))
         elif r["violations"]:
             v = r["violations"][0]
+            # native replay: the real code under loom, same used set and thread/call counts
+            import native
+            try:
+                nat = native.run_loom(v.get("used", []), k, m)
+            except Exception as e:      # noqa: BLE001
+                nat = {"reproduced": None, "lines": [], "tail": repr(e)}
             rp = e2.save_replay("C13", oid, {"property": "C13", "obligation": oid, "engine": "mirsym",
-                                             "statement": o["what"], "counterexample": v})
-            if v.get("confirmed_by_interpreter", True):
-                outs.append(Outcome(oid, "mirsym", "fails", v["clause"] + f" (used={v.get('used')}, returns={v.get('returns')})",
+                                             "statement": o["what"], "counterexample": v, "native_loom": nat})
+            if nat["reproduced"] is False:
+                outs.append(Outcome(oid, "mirsym", "inconclusive",
+                                    "counterexample did not reproduce under loom on the real code: " + v["clause"],
+                                    queries=r["queries"], solver_s=r["solver_s"], sample=sample, replay_path=rp))
+            elif nat["reproduced"] or v.get("confirmed_by_interpreter", True):
+                how = ("natively (loom): " + "; ".join(nat["lines"])[:200]) if nat["reproduced"] else \
+                    "loom replay unavailable, schedule re-executed by the interpreter of the thread summaries only"
+                outs.append(Outcome(oid, "mirsym", "fails", v["clause"] + f" (used={v.get('used')}, returns={v.get('returns')}) -- {how}",
                                     queries=r["queries"], solver_s=r["solver_s"], sample=sample,
                                     clause=v["clause"], site="ConcurrentNodeIds::next", replayed=True, replay_path=rp))
             else:
